@@ -1,0 +1,29 @@
+//go:build verif && !test
+
+package os
+
+import "github.com/glebziz/fs_db/internal/verifhook"
+
+// Write passes through the verification hook, which may observe the write,
+// stop the process, or make it fail after a partial write.
+func (f File) Write(p []byte) (n int, err error) {
+	allow, ferr := verifhook.BeforeWrite(f.File.Name(), len(p))
+	if ferr != nil {
+		if allow > 0 && allow <= len(p) {
+			n, _ = f.File.Write(p[:allow])
+		}
+
+		return n, ferr
+	}
+
+	return f.File.Write(p)
+}
+
+// Close passes through the verification hook.
+func (f File) Close() error {
+	if err := verifhook.Point("file.close", f.File.Name()); err != nil {
+		return err
+	}
+
+	return f.File.Close()
+}
